@@ -57,6 +57,7 @@ def check(ctx) -> None:
     r76(ctx)
     r77(ctx)
     r78(ctx)
+    r79(ctx)
 
 
 def r71(ctx) -> None:
@@ -501,3 +502,48 @@ def r78(ctx) -> None:
              for x in walk_local(pre.node) if isinstance(x, ast.BinOp))
     R.check(ok, pre, pre.node, 'literal prefix announces self.length',
             'the {n} prefix is not built from the stored length')
+
+
+def r79(ctx) -> None:
+    R = ctx.rule('R7.9', 'client-chosen FETCH section parts are echoed in '
+                 'wire-safe form', 2)
+    fa = ctx.proj.cls('pymap/parsing/specials/fetchattr.py', 'FetchAttribute')
+    ps = fa.own_method('_parse_section')
+    raw = fa.own_method('raw')
+    if ps is None or raw is None:
+        raise AnchorError('FetchAttribute._parse_section/raw vanished')
+    # what raw writes for headers
+    echoes_verbatim = any('headers' in txt(x) for x in walk_local(raw.node)
+                          if isinstance(x, ast.Attribute))
+    requotes = any(call_name(c) in ('AString', 'QuotedString', 'build')
+                   for c in calls_in(raw.node))
+    # what the parser stores as the header set
+    stored = []
+    for c in calls_in(ps.node, 'Section'):
+        if len(c.args) >= 3:
+            stored += resolve_local(ps, c.args[2])
+    n = 0
+    for v in stored:
+        for comp in [x for x in ast.walk(v)
+                     if isinstance(x, (ast.ListComp, ast.GeneratorExp,
+                                       ast.SetComp))]:
+            n += 1
+            elt = comp.elt
+            safe = isinstance(elt, ast.Call) and call_name(elt) == 'bytes' \
+                and len(elt.args) == 1
+            R.check(safe or requotes or not echoes_verbatim, ps, comp,
+                    '_parse_section stores header names as bytes(<parsed '
+                    'AString>)',
+                    f'header names of HEADER.FIELDS are stored as '
+                    f'`{txt(elt)}` (the decoded value) and '
+                    f'FetchAttribute.raw writes them back verbatim: a name '
+                    f'sent as a quoted string or literal with ( ) ] " SP CR '
+                    f'LF is echoed unquoted, e.g. BODY[HEADER.FIELDS '
+                    f'(X-A(B)]')
+    if n == 0:
+        R.undecided(ps, ps.node, '_parse_section stores header names as '
+                    'bytes(<parsed AString>)', 'header-set construction '
+                    'not recognised')
+    R.ok(raw, raw.node, 'FetchAttribute.raw echo analysed',
+         f'verbatim echo of stored headers: {echoes_verbatim}; re-quotes: '
+         f'{requotes}')
